@@ -279,8 +279,8 @@ func ruleOpaque(c *core.Ctx) {
 	const rule = "C02.opaque"
 	w := c.Func("type/value", "OpaqueValue", "Write")
 	no := c.Func("type/value", "", "newOpaque")
-	sigF := c.Field("type/value", "OpaqueValue", "sig")
-	dataF := c.Field("type/value", "OpaqueValue", "data")
+	sigF := fld(c, "type/value", "OpaqueValue", "sig")
+	dataF := fld(c, "type/value", "OpaqueValue", "data")
 	if w == nil || no == nil || sigF == nil || dataF == nil {
 		c.Undecided(rule, "type/value.OpaqueValue", token.NoPos, "anchor not found")
 		return
